@@ -114,7 +114,9 @@ def gen_loans(r) -> Dict[str, Any]:
             inv.append(acts)
         scripts["bar:" + p] = inv
     return {"pairs": pairs, "bars": bars, "setup": setup, "scripts": scripts, "suspend": False, "lend": True, "nsig": 0,
-            "liq": None, "scarce": True, "no_base": True, "variant": "loans", "shared_lists": r.random() < 0.5}
+            "liq": None, "scarce": True, "no_base": True, "variant": "loans", "shared_lists": r.random() < 0.5,
+            # with a high requirement the fourth or fifth short sale is refused: the refusal itself is part of the history
+            "margin_req": r.choice(["0.2", "3", "3"])}
 
 
 def gen(r) -> Dict[str, Any]:
@@ -240,7 +242,7 @@ class OneRun:
             if ls is None:
                 ls = lending.MarginLoans("USD", default_conditions=lending.MarginLoanConditions(
                     interest_symbol="USD", interest_percentage=D("7"), interest_period=datetime.timedelta(days=365),
-                    min_interest=D("0.01"), margin_requirement=D("0.2")))
+                    min_interest=D("0.01"), margin_requirement=D(sc.get("margin_req", "0.2"))))
                 if self.shared_lending is not None:
                     self.shared_lending.append(ls)
             kw["lending_strategy"] = ls
